@@ -1089,6 +1089,12 @@ def criteria_parser(criteria):
             if check is not None:
                 return check
 
+        elif op == operator.ne:
+            # '<>' with a wildcard pattern selects what '=' does not
+            wildcard = build_wildcard_re(value)
+            if wildcard is not None:
+                return lambda x: not wildcard(x)
+
         if is_number(value):
             value = coerce_to_number(value)
 
